@@ -1,15 +1,27 @@
 #!/bin/sh
 # Build the framework from files on disk only (offline): harness crates against /repo, Lean project.
-set -e
+# Each harness crate is built with `-p` exactly as ./check builds it (cargo's feature resolution
+# differs between `--workspace` and `-p`, so a workspace build would neither warm the per-crate
+# builds nor compile at all where one crate turns on an unstable feature of a shared ruma crate).
 cd "$(dirname "$0")"
 export RUSTUP_TOOLCHAIN=1.88.0 CARGO_NET_OFFLINE=true
 export RUSTFLAGS="--cfg ruma_verif --check-cfg cfg(ruma_verif)"
 mkdir -p work evidence replays
-(cd harness && cargo build --offline --release --workspace 2>&1 | tail -3)
+rc=0
+crates=""
 targets=""
 for f in props/C*.json; do
   id=$(basename "$f" .json)
   lc=$(echo "$id" | tr 'A-Z' 'a-z')
+  crate=$(python3 -c "import json,sys; print(json.load(open('$f')).get('crate') or 'h-$lc')")
+  case " $crates " in *" $crate "*) ;; *) crates="$crates $crate";; esac
   targets="$targets RumaModel.Props.$id drv-$lc"
 done
-(cd lean && lake build $targets 2>&1 | tail -3)
+for c in $crates; do
+  echo "[setup] cargo build -p $c"
+  (cd harness && cargo build --offline --release -p "$c" 2>&1 | grep -E "^error|Finished|could not compile" | tail -5)
+  [ -x "harness/target/release/$c" ] || { echo "[setup] FAILED to build $c"; rc=1; }
+done
+echo "[setup] lake build"
+(cd lean && lake build $targets 2>&1 | grep -E "error|Build completed|build failed" | tail -10)
+exit $rc
